@@ -50,3 +50,5 @@ mod c26;
 mod c12;
 #[cfg(kani)]
 mod c02;
+#[cfg(kani)]
+mod c20;
